@@ -361,7 +361,20 @@ func ZZ_C04_Runs(sv *zzsv.T) {
 	sv.Assume(e.Prepare() == nil)
 	var first interface{} = o1
 	var second interface{} = o2
-	switch sv.Choice("second", 6) {
+	var between func()
+	switch sv.Choice("second", 9) {
+	case 6: // the same struct, through the same pointer, updated in place by the host
+		p := &zzTwo{A: o1.A, B: o1.B}
+		first, second = p, p
+		between = func() { p.A, p.B = o2.A, o2.B }
+	case 7: // the same map, updated in place
+		m := map[string]interface{}{"A": o1.A, "B": o1.B}
+		first, second = m, m
+		between = func() { m["A"], m["B"] = o2.A, o2.B }
+	case 8: // the same map: the field appears only for the second run
+		m := map[string]interface{}{"Z": o1.A}
+		first, second = m, m
+		between = func() { m["A"], m["B"] = o2.A, o2.B }
 	case 1:
 		second = &o2
 	case 2:
@@ -393,6 +406,9 @@ func ZZ_C04_Runs(sv *zzsv.T) {
 		}{o1.B, 3, o1.A}
 	}
 	out1, err1 := e.Execute(first)
+	if between != nil {
+		between()
+	}
 	out2, err2 := e.Execute(second)
 	zzDescribe(sv, "first", out1, err1)
 	zzDescribe(sv, "second", out2, err2)
@@ -400,7 +416,16 @@ func ZZ_C04_Runs(sv *zzsv.T) {
 	if err1 != nil || err2 != nil {
 		return
 	}
-	if e.Script == "return A;" {
+	fm, _ := first.(map[string]interface{})
+	if _, absent := fm["Z"]; absent {
+		// a name that is neither a variable nor a key yields null
+		sv.Assert("C04.runs.first", zzSame(sv, out1, zNull()))
+		if e.Script == "return A;" {
+			sv.Assert("C04.runs.second", zzSame(sv, out2, zInt(o2.A)))
+		} else {
+			sv.Assert("C04.runs.second", zzSame(sv, out2, zStr(o2.B)))
+		}
+	} else if e.Script == "return A;" {
 		sv.Assert("C04.runs.first", zzSame(sv, out1, zInt(o1.A)))
 		sv.Assert("C04.runs.second", zzSame(sv, out2, zInt(o2.A)))
 	} else {
